@@ -19,7 +19,11 @@ RULE = ("AsyncServiceInfo.async_request on a real Zeroconf in virtual time. Cach
         "forced QU/QM or not. Monitors: return time <= start+timeout; True <=> at least one address known; fields equal a model "
         "that replays, in order, exactly the records handed to the info object (logged by a read-only wrapper at "
         "_process_record_threadsafe with their created/ttl at that instant) and ignores the expired ones; every address/SRV used "
-        "was unexpired at or after the start; zero datagrams iff the cache sufficed; first query QU then QM (or forced). Distinct "
+        "was unexpired at or after the start; zero datagrams iff the cache sufficed; first query QU then QM (or forced); every "
+        "query, judged against a snapshot of the cache taken at the send instant: SRV/TXT asked only while no answer with more "
+        "than half its TTL is held (and always then, in QU queries), address questions go to the SRV target the object knew at "
+        "that moment; all address accessors (by version, parsed, scoped, dns_addresses) are views of one duplicate-free list. "
+        "Records in one datagram arrive in shuffled order (addresses before the SRV that makes them relevant). Distinct "
         "= (cache-state tuple, arrival bucket, timeout, forced type, outcome) classes.")
 ASSUMPTIONS = ["the read instant of a record is observed by wrapping ServiceInfo._process_record_threadsafe from the harness (no source change)",
                "at most one SRV record per instance is cached at a time (target changes arrive with the cache-flush bit)"]
